@@ -368,8 +368,14 @@ def rule_bcast(repo, tier):
 # ---------------------------------------------------------------- WRAP / HANDLED
 
 UT = 'pypose.lietensor.utils'
+# reference table: the shape-only functions named by the property plus every member of the library's handled-function list as confirmed on the
+# pinned tree (the quantifier ranges over "all functions in the library's handled-function list").  The rule is a superset test: entries may be
+# added freely, a removed entry makes that function return a plain tensor without ltype.
 SHAPE_ONLY = ['__getitem__', 'view', 'reshape', 'permute', 'cat', 'stack', 'split', 'clone', 'detach', 'to', 'expand', 'gather', 'scatter',
-              'squeeze', 'unsqueeze', 'index_select', 'transpose', 'chunk', 'unbind', 'repeat', 'narrow', 'select']
+              'squeeze', 'unsqueeze', 'index_select', 'transpose', 'chunk', 'unbind', 'repeat', 'narrow', 'select',
+              '__setitem__', 'cpu', 'cuda', 'float', 'double', 'view_as', 'hsplit', 'dsplit', 'vsplit', 'tensor_split', 'concat', 'column_stack',
+              'dstack', 'vstack', 'hstack', 'masked_select', 'movedim', 'moveaxis', 'row_stack', 'scatter_add', 'swapaxes', 'swapdims', 'take',
+              'take_along_dim', 'tile', 'copy', 'expand_as', 'index_copy', 'index_copy_', 'select_scatter', 'index_put', 'index_put_', 'copy_']
 
 
 @guarded
@@ -575,4 +581,4 @@ def rules(repo, tier):
                                                       'before it is complete - a later call with the same object and other contents must not be answered from it',
                                                       ['pypose.lietensor.lietensor', 'pypose.lietensor.operation', 'pypose.lietensor.basics', 'pypose.lietensor.utils', 'pypose.lietensor.convert'], floor=3),
             rule_optional(repo, 'C06.OPT', ['pypose.lietensor.lietensor', 'pypose.lietensor.operation', 'pypose.lietensor.basics', 'pypose.lietensor.utils', 'pypose.lietensor.convert'])] + mode_rules(repo, 'C06', ['pypose.lietensor.lietensor', 'pypose.lietensor.operation', 'pypose.lietensor.basics', 'pypose.lietensor.utils', 'pypose.lietensor.convert']) + [rule_callsig(repo, 'C06.SIG', ['pypose.lietensor.lietensor', 'pypose.lietensor.operation', 'pypose.lietensor.basics', 'pypose.lietensor.utils', 'pypose.lietensor.convert']), rule_docsig(repo, 'C06.DOC', ['pypose.lietensor.lietensor', 'pypose.lietensor.operation', 'pypose.lietensor.basics', 'pypose.lietensor.utils', 'pypose.lietensor.convert'])] + [
-            rule_axisdefault(repo, 'C06.AXDEF', ['pypose.lietensor.lietensor', 'pypose.lietensor.operation', 'pypose.lietensor.basics', 'pypose.lietensor.utils', 'pypose.lietensor.convert', 'pypose.basics.ops'])]
+            rule_axisdefault(repo, 'C06.AXDEF', ['pypose.lietensor.lietensor', 'pypose.lietensor.operation', 'pypose.lietensor.basics', 'pypose.lietensor.utils', 'pypose.lietensor.convert', 'pypose.basics.ops']), __import__('sa.axisdefault', fromlist=['x']).rule_frontaxis(repo, 'C06.BAX', ['pypose.lietensor.lietensor', 'pypose.lietensor.operation', 'pypose.lietensor.basics', 'pypose.lietensor.utils', 'pypose.lietensor.convert'])]
